@@ -11,7 +11,39 @@ import (
 )
 
 type Locker = sync.Locker
-type Pool = sync.Pool
+// Pool mirrors sync.Pool deterministically: inside an exploration it is a LIFO free list (every Put is
+// found by the next Get — the most adversarial reuse, and reproducible); outside it is the real sync.Pool.
+type Pool struct {
+	New   func() any
+	real  sync.Pool
+	items []any
+}
+
+func (p *Pool) Get() any {
+	if !vsched.Active() && !vsched.Dying() {
+		p.real.New = p.New
+		return p.real.Get()
+	}
+	vsched.Point("pool.get")
+	if n := len(p.items); n > 0 {
+		x := p.items[n-1]
+		p.items = p.items[:n-1]
+		return x
+	}
+	if p.New != nil {
+		return p.New()
+	}
+	return nil
+}
+
+func (p *Pool) Put(x any) {
+	if !vsched.Active() && !vsched.Dying() {
+		p.real.Put(x)
+		return
+	}
+	vsched.Point("pool.put")
+	p.items = append(p.items, x)
+}
 type Map = sync.Map
 
 // Mutex mirrors sync.Mutex.
